@@ -2,6 +2,7 @@
  * protocol). After every operation the whole tree is dumped through the public node fields:
  * shape, colours, keys, values, traversal ids and parent pointers. */
 #include "common.h"
+#include "allocwrap.h"
 #include "qlibc.h"
 #include <signal.h>
 
@@ -48,12 +49,14 @@ static bool is_live(qtreetbl_obj_t *o) {
 static void print_next(qtreetbl_obj_t *n) {
     if (!n) printf("~");
     else if (!is_live(n)) printf("!");
+    else if (n->name == NULL) printf("NULLNAME");
     else puthex(stdout, n->name, n->namesize);
 }
 static void shape(qtreetbl_obj_t *o) {
     if (!o) { printf("."); return; }
     printf("("); shape(o->left); printf(" ");
-    puthex(stdout, o->name, o->namesize); printf("=");
+    if (o->name == NULL) printf("NULLNAME"); else puthex(stdout, o->name, o->namesize);
+    printf("=");
     puthex(stdout, o->data, o->data ? o->datasize : 0);
     printf(o->red ? " r " : " b ");
     printf("%u ", (unsigned) o->tid); print_next(o->next); printf(" ");
@@ -64,7 +67,7 @@ static void refresh_live(void) {
     if (nlive) qsort(live, nlive, sizeof(*live), ptrcmp);
 }
 static void state(void) {
-    printf("num=%zu tid=%u chk=%d ", tbl->num, (unsigned) tbl->tid, qtreetbl_check(tbl));
+    printf("num=%zu tid=%u chk=%d live=%ld ", tbl->num, (unsigned) tbl->tid, qtreetbl_check(tbl), aw_live);
     if (quiet) { printf("-"); return; }
     refresh_live();
     shape(tbl->root);
@@ -87,12 +90,20 @@ int main(void) {
         if (nw == 0) continue;
         const char *op = w[0];
         bytes_t k = {0, 0}, v = {0, 0};
-        if (nw >= 2 && strcmp(op, "new") && strcmp(op, "quiet") && !unhex(w[1], &k)) { printf("bad-hex\n"); continue; }
+        if (nw >= 2 && strcmp(op, "new") && strcmp(op, "quiet") && strncmp(op, "fault", 5) && !unhex(w[1], &k)) { printf("bad-hex\n"); continue; }
         if (nw >= 3 && !unhex(w[2], &v)) { printf("bad-hex\n"); continue; }
         alarm(2);
+        if (!strcmp(op, "fault") || !strcmp(op, "faultfrom")) {
+            /* arm: fail the k-th allocation (or all from the k-th) inside the next call */
+            aw_arm(atol(w[1]), op[5] == 'f');
+            printf("ok\n"); alarm(0); free(k.p); free(v.p); continue;
+        }
         if (!strcmp(op, "new")) {
             tbl->free(tbl);
+            aw_begin();
             tbl = qtreetbl(0);
+            aw_end();
+            if (tbl == NULL) { printf("null live=%ld\n", aw_live); tbl = qtreetbl(0); alarm(0); free(k.p); free(v.p); continue; }
             int m = atoi(w[1]);
             qtreetbl_set_compare(tbl, m == 1 ? cmp_rev : m == 2 ? cmp_fold : cmp_count);
             memset(&cur, 0, sizeof(cur));
@@ -102,35 +113,59 @@ int main(void) {
         } else if (!strcmp(op, "dump")) {
             int q = quiet; quiet = 0; printf("ok "); state(); quiet = q;
         } else if (!strcmp(op, "put") && nw == 3) {
+            aw_begin();
             bool r = tbl->putobj(tbl, k.p, k.n, v.n ? v.p : NULL, v.n);
+            printf("allocs=%ld ", aw_end());
             /* the caller's buffers are released immediately (C12) */
             memset(k.p, 0xAA, k.n); memset(v.p, 0xAA, v.n);
             printf("%s ", r ? "true" : "false"); state();
         } else if (!strcmp(op, "get") && nw == 2) {
             size_t sz = 0; cmp_calls = 0;
+            aw_begin();
             void *d = tbl->getobj(tbl, k.p, k.n, &sz, true);
-            if (d) { printf("data "); puthex(stdout, d, sz); free(d); } else printf("null");
+            printf("allocs=%ld ", aw_end());
+            if (d) { printf("data "); puthex(stdout, d, sz); vf_free(d); } else printf("null");
             printf(" cost=%ld", cmp_calls);
         } else if (!strcmp(op, "rm") && nw == 2) {
+            aw_begin();
             bool r = tbl->removeobj(tbl, k.p, k.n);
+            printf("allocs=%ld ", aw_end());
             printf("%s ", r ? "true" : "false"); state();
         } else if (!strcmp(op, "size")) {
             printf("%zu", tbl->size(tbl));
         } else if (!strcmp(op, "min") || !strcmp(op, "max")) {
             size_t sz = 0;
+            aw_begin();
+            errno = 0;
             void *n = op[1] == 'i' ? tbl->find_min(tbl, &sz) : tbl->find_max(tbl, &sz);
-            if (n) { printf("key "); puthex(stdout, n, sz); free(n); } else printf("ENOENT");
+            printf("allocs=%ld ", aw_end());
+            if (n) { printf("key "); puthex(stdout, n, sz); vf_free(n); } else printf(errno == ENOMEM ? "ENOMEM" : "ENOENT");
         } else if (!strcmp(op, "clear")) {
             tbl->clear(tbl); printf("ok "); state();
+        } else if (!strcmp(op, "end")) {
+            /* C11: once the container is released every block it allocated is freed */
+            tbl->free(tbl);
+            printf("end live=%ld", aw_live);
+            tbl = qtreetbl(0);
+            qtreetbl_set_compare(tbl, cmp_count);
+            memset(&cur, 0, sizeof(cur));
         } else if (!strcmp(op, "cursor0")) {
             memset(&cur, 0, sizeof(cur)); printf("ok");
         } else if (!strcmp(op, "next")) {
-            if (tbl->getnext(tbl, &cur, true)) {
-                printf("item "); puthex(stdout, cur.name, cur.namesize); printf("=");
-                puthex(stdout, cur.data, cur.data ? cur.datasize : 0); printf(" ");
-                free(cur.name); free(cur.data);
+            aw_begin();
+            errno = 0;
+            bool more = tbl->getnext(tbl, &cur, true);
+            int e = errno;
+            printf("allocs=%ld ", aw_end());
+            if (more) {
+                if (cur.name == NULL) printf("item NULLNAME ");
+                else {
+                    printf("item "); puthex(stdout, cur.name, cur.namesize); printf("=");
+                    puthex(stdout, cur.data, cur.data ? cur.datasize : 0); printf(" ");
+                }
+                vf_free(cur.name); vf_free(cur.data);
                 print_cur(); printf(" "); state();
-            } else { printf("done "); state(); }
+            } else { printf(e == ENOMEM ? "enomem " : "done "); state(); }
         } else if (!strcmp(op, "walk")) {
             qtreetbl_obj_t o; memset(&o, 0, sizeof(o));
             size_t n = 0, cap2 = 1 << 16; char *buf = malloc(cap2); size_t bl = 0;
@@ -139,20 +174,22 @@ int main(void) {
             while (tbl->getnext(tbl, &o, true)) {
                 fprintf(mem, " "); puthex(mem, o.name, o.namesize); fprintf(mem, "=");
                 puthex(mem, o.data, o.data ? o.datasize : 0);
-                free(o.name); free(o.data);
+                vf_free(o.name); vf_free(o.data);
                 if (++n >= limit) break;      /* runaway walk: reported through the count */
             }
             fflush(mem); bl = ftell(mem); fclose(mem);
             if (n >= limit) { printf("fault outOfFuel"); free(buf); }
             else { printf("walk %zu%.*s | ", n, (int) bl, buf); free(buf); state(); }
         } else if (!strcmp(op, "near") && nw == 2) {
+            aw_begin();
             errno = 0;
             qtreetbl_obj_t o = tbl->find_nearest(tbl, k.p, k.n, true);
-            if (o.name == NULL) { printf("ENOENT "); state(); }
+            printf("allocs=%ld ", aw_end());
+            if (o.name == NULL) { printf(errno == ENOMEM ? "ENOMEM " : "ENOENT "); state(); }
             else {
                 printf("found "); puthex(stdout, o.name, o.namesize); printf("=");
                 puthex(stdout, o.data, o.data ? o.datasize : 0); printf(" ");
-                free(o.name); free(o.data);
+                vf_free(o.name); vf_free(o.data);
                 cur = o; print_cur(); printf(" "); state();
             }
         } else {
